@@ -137,7 +137,7 @@ func genC02(w *simrt.Choices, tier string, avoid map[string]bool) Case {
 	kinds := []string{"text", "text", "dots", "lonedot", "empty", "barelf", "barecr", "nul8", "long", "percent"}
 	n := w.Choose(14)
 	budget := 64 << 10
-	if tier == "thorough" && w.Choose(6) == 0 {
+	if tier == "thorough" && w.Choose(16) == 0 {
 		budget = 4 << 20
 	}
 	for i := 0; i < n; i++ {
